@@ -90,6 +90,11 @@ pub fn schema_ty<T: FullS>(g: &mut Gen, b: &Budget, out: &mut Sink) {
                 let mut pos = 0usize;
                 let r = walk(&c, c.declaration(), &enc, &mut pos, 0);
                 let okay = matches!(r, Ok(())) && pos == enc.len();
+                // the same walk by the specification's reader (Lean `sdec`): ties the oracle to the theorem
+                if enc.len() <= 4096 {
+                    out.case(&format!("sdec {} {}", hex(&bs), hex(&enc)),
+                             &match &r { Ok(()) => format!("ok rest={}", enc.len() - pos), Err(_) => "fail".to_string() });
+                }
                 out.oracle(
                     "C08",
                     okay,
